@@ -230,6 +230,26 @@ pub fn explore(plan: &Plan, f: &PointFn) -> Acc {
                 }
                 _ => sector_points(&case, order, plan.k, &plan.roles),
             };
+            // SETTINGS alphabet on the sector's default point: the other combinations of print_debug_info and
+            // matrix_stability_test (+inf: never fails) that still return what the point function reads (metadata kept);
+            // clauses that need the debug log are vacuous without it, the clauses on returned values are judged
+            if let Some((x0, _)) = pts.first() {
+                for (dbg, stab) in [(!plan.settings.debug, plan.settings.stability), (plan.settings.debug, Some(f64::INFINITY)), (!plan.settings.debug, Some(f64::INFINITY))] {
+                    let alt = Settings { stability: stab, debug: dbg, metadata: plan.settings.metadata };
+                    let po = observe_point(&case, &base, x0, &alt);
+                    acc.inc("executions");
+                    acc.inc("settings_alphabet_executions");
+                    acc.add("answers_consumed", x0.len() as u64);
+                    let nv = acc.violations.len();
+                    f(&case, &base, &po, 0, acc);
+                    for v in acc.violations.iter_mut().skip(nv) {
+                        if let Some(o) = v.replay.as_object_mut() {
+                            o.insert("settings".into(), settings_json(&alt));
+                        }
+                        v.what = format!("{} [settings: print_debug_info = {}, matrix_stability_test = {:?}]", v.what, alt.debug, alt.stability);
+                    }
+                }
+            }
             for (pi, (x, ndev)) in pts.iter().enumerate() {
                 // large exact-arithmetic cases can spend minutes inside ONE sector: the wall-clock cap is honoured here too
                 if pi % 16 == 15 && time_up() {
